@@ -52,6 +52,7 @@ var c17URLs = []string{
 	"javascript:alert(1)", "JaVaScRiPt:alert(1)", " javascript:alert(1)", "java\tscript:alert(1)", "java\nscript:alert(1)", "\x01javascript:alert(1)", "javascript&colon;alert(1)", "javascript&#58;alert(1)", "javascript%3Aalert(1)",
 	"data:text/html,<script>alert(1)</script>", "DATA:text/html;base64,PHNjcmlwdD4=", "vbscript:msgbox(1)", "feed:javascript:alert(1)", "https://sp.example/\"onmouseover=\"alert(1)", "https://sp.example/'><script>", "https://sp.example/a b", "https://sp.example/ü",
 	"javascript://sp.example/%0Aalert(document.domain)", "JavaScript://sp.example:443/%0aalert(1)", "vbscript://sp.example/x", "data://sp.example/text/html,<script>alert(1)</script>", "javascript://%0aalert(1)", "javascript:///x%0aalert(1)",
+	"https://sp.example/saml/slo?tenant=7&region=eu", "https://sp.example/slo?a=1&copy=2&notify=3&section=4", "https://sp.example/slo?label=%26amp%3B&raw=&amp;&lt=3", "https://sp.example/slo?n=&#49;&m=&#x32;", "https://sp.example/slo?x=&quot;y&apos;",
 	"com.example.app://saml/acs", "x:y", "a/b:c", "://", ":", "#frag", "?q=javascript:alert(1)",
 }
 
@@ -79,6 +80,11 @@ func genHostile(t *rapid.T, label string, maxPieces int) string {
 func genC17Case(t *rapid.T) C17Case {
 	c := C17Case{Route: rapid.SampledFrom([]string{"direct-post", "direct-post", "direct-logout", "direct-logout", "sso-error", "callback", "callback", "logout"}).Draw(t, "route")}
 	c.RelayState = genHostile(t, "relay", 6)
+	if rapid.IntRange(0, 5).Draw(t, "relay-url") == 0 {
+		// a deep link as RelayState: a URL on the consumer's host, on another host of the provider, anywhere; scheme-relative forms
+		c.RelayState = rapid.SampledFrom([]string{"https://app.sp.example/dashboard?tab=2", "//static.sp.example/after-login", "HTTPS://Portal.Example/", "https://sp.example/acs", "https://sp.example/home?x=1&y=2",
+			"http://sp.example:8080/", "https://elsewhere.example/#frag", "/relative/path?next=/", "app.custom://return", "https://sp.example@elsewhere.example/"}).Draw(t, "relay-urlv") + genHostile(t, "relay-url-tail", 1)
+	}
 	c.Message = genHostile(t, "message", 4)
 	if rapid.Bool().Draw(t, "urlfromlist") {
 		c.URL = rapid.SampledFrom(c17URLs).Draw(t, "url")
@@ -322,8 +328,29 @@ func c17Run(c C17Case) ([]*ev.Violation, string) {
 	cfg := spec.IdP
 	var hr obs.HTTPReq
 	url := c.URL
+	// the URL of the logout / sso-error pages is a registered one: whatever a provider can register (any string of legal XML
+	// characters travels through the metadata document) is what the page is built from
+	registrable := func(u string) bool {
+		if u == "" || !utf8.ValidString(u) {
+			return false
+		}
+		for _, r := range u {
+			if !xt.IsChar(r) {
+				return false
+			}
+		}
+		return true
+	}
 	build := func(relay, acsURL string) (world.Spec, obs.HTTPReq) {
 		sp := c17Spec()
+		if registrable(acsURL) {
+			switch c.Route {
+			case "sso-error":
+				sp.SPs[0].ACS[0].Location = acsURL
+			case "logout":
+				sp.SPs[0].SLO[0].Location = acsURL
+			}
+		}
 		switch c.Route {
 		case "sso-error":
 			a := spsim.NewAuthnReq("_c17", sp.SPs[0].EntityID)
@@ -345,9 +372,13 @@ func c17Run(c C17Case) ([]*ev.Violation, string) {
 	}
 	switch c.Route {
 	case "sso-error":
-		url = spec.SPs[0].ACS[0].Location
+		if !registrable(url) {
+			url = spec.SPs[0].ACS[0].Location
+		}
 	case "logout":
-		url = spec.SPs[0].SLO[0].Location
+		if !registrable(url) {
+			url = spec.SPs[0].SLO[0].Location
+		}
 	case "callback":
 		if url == "" {
 			url = "https://sp.example/acs" // an empty consumer URL means body delivery, no page
